@@ -1231,15 +1231,19 @@ impl store::Cob for Patch {
         repo: &R,
     ) -> Result<(), Error> {
         debug_assert!(!self.timeline.contains(&op.id));
-        self.timeline.push(op.id);
 
         let doc = op.identity_doc(repo)?.ok_or(Error::MissingIdentity)?;
         let concurrent = concurrent.into_iter().collect::<Vec<_>>();
+        // Nb. An operation is applied entirely or not at all: if one of its actions
+        // fails, neither the timeline entry nor the actions before it must leave a
+        // trace in the state.
+        let mut patch = self.clone();
+        patch.timeline.push(op.id);
 
         for action in op.actions {
             log::trace!(target: "patch", "Applying {} {action:?}", op.id);
 
-            if let Err(e) = self.op_action(
+            if let Err(e) = patch.op_action(
                 action,
                 op.id,
                 op.author,
@@ -1252,6 +1256,8 @@ impl store::Cob for Patch {
                 return Err(e);
             }
         }
+        *self = patch;
+
         Ok(())
     }
 }
